@@ -14,6 +14,7 @@ and that is the end of it.
 """
 
 import json
+import collections
 import types
 
 import egsim  # noqa: F401
@@ -21,6 +22,7 @@ from egsim import classes as C
 from egsim import engine, gen, ops as O, seams, twin
 from egsim.props import common, c05, c19
 from egsim.world import public_attrs, kind_of
+from edgegraph.output import nrpickler
 
 LIST_MUTS = ["append", "insert", "remove_first", "clear", "sort", "reverse", "setitem", "delitem", "pop", "extend", "imul"]
 SET_MUTS = ["add", "discard_one", "clear", "pop"]
@@ -226,6 +228,16 @@ class ScribbleExec(O.Exec):
                     {k: types.MappingProxyType(v) for k, v in held["inner"].items()}
                 )
                 held["edge_whitelist"] = held["inner"]
+            elif op.get("wl_as") == "chainmap":
+                # per-type rule sets layered over one table of defaults the
+                # caller keeps (and goes on editing)
+                defaults = {}
+                for inner in held["edge_whitelist"].values():
+                    defaults.update(inner)
+                kw["edge_whitelist"] = {
+                    k: collections.ChainMap({}, defaults) for k in held["edge_whitelist"]
+                }
+                held["edge_whitelist"] = defaults
         law = UniverseLaws(**kw)
         self.w.add(op["new"], law)
         self._after(op, held)
@@ -370,6 +382,8 @@ class C12(c05.C05):
         "argument-passed-as-read-only-view",
         "scribble-arg:ends",
         "empty-whitelist",
+        "whitelist-rule-sets-layered-over-shared-defaults",
+        "accessor-result-scribbled-right-after-a-round-trip",
         "scribble-with-live-generators",
         "constructor-fed-by-failing-iterable",
     ]
@@ -386,6 +400,7 @@ class C12(c05.C05):
         cfg["weights"]["mk_laws_c"] = rng.choice([1, 2])
         if rng.random() < 0.15:
             cfg["universe_classes"] = ["Universe", "UnhashableUniverse"]
+        cfg["roundtrips"] = rng.random() < 0.3
         cfg["multi"] = rng.random() < 0.25
         cfg["nmv"] = rng.randint(2, 3)
         if cfg["multi"]:
@@ -413,7 +428,24 @@ class C12(c05.C05):
         return m
 
     def next_op(self, rng, cfg, st):
+        if getattr(st, "diverged", False):
+            return None
         if st.pending is not None and not st.pending and not st.queue:
+            if cfg.get("roundtrips") and not st.tasks and rng.random() < 0.05:
+                # both worlds through the pickler and back; then scribble on
+                # what the accessors of the copies hand out FIRST (objects that
+                # were in no universe: links, law sets, lone vertices)
+                st.stats["probe:accessor-result-scribbled-right-after-a-round-trip"] += 1
+                cands = st.view.kind("emL") + [v for v in st.view.vertices() if not st.view.snap[v].get("universes")]
+                for obj in rng.sample(cands, min(2, len(cands))):
+                    src = {"op": "get", "obj": obj, "attr": "universes"}
+                    st.queue.append({"op": "scribble_ret", "src": src, "mut": self._mut(rng, st, ["append", "insert", "extend"])})
+                    st.queue.append(dict(src))
+                    us = st.view.universes()
+                    if us and st.view.snap[obj]["k"] in "vu":
+                        st.queue.append({"op": "v_add_uni", "u": rng.choice(us), "v": obj})
+                        st.queue.append(dict(src))
+                return {"op": "roundtrip", "proto": rng.randint(0, 5), "loader": rng.choice(["pickle", "dill"])}
             if rng.random() < cfg["p_scribble"]:
                 op = self._scribble_op(rng, cfg, st)
                 if op is not None:
@@ -507,6 +539,10 @@ class C12(c05.C05):
         elif r < 0.4:
             op["wl_as"] = "proxy2"
         op["scribble"] = {"arg": "edge_whitelist", "mut": self._mut(rng, st, DICT_MUTS)}
+        if 0.4 <= r < 0.55 and any(inner for _, inner in spec):
+            op["wl_as"] = "chainmap"
+            op["scribble"] = {"arg": "edge_whitelist", "mut": self._mut(rng, st, ["clear", "pop_one"])}
+            st.stats["probe:whitelist-rule-sets-layered-over-shared-defaults"] += 1
         return op
 
     def _scribble_op(self, rng, cfg, st):
@@ -541,9 +577,62 @@ class C12(c05.C05):
         return {"op": "scribble_ret", "src": src, "mut": self._mut(rng, st, kinds)}
 
     # -- execution ---------------------------------------------------------------------------
+    def _roundtrip(self, st, op):
+        """Both worlds through edgegraph's own pickler and back, in this process."""
+        import pickle
+
+        from egsim.world import World
+
+        for ex in (st.exA, st.exB):
+            for g in list(ex.tasks.values()):
+                try:
+                    g.close()
+                except Exception:  # pylint: disable=broad-except
+                    pass
+            ex.tasks.clear()
+        st.tasks = []
+        seams.set_flag(False)
+        before = xsnap(st.exB)
+        for ex in (st.exA, st.exB):
+            w = ex.w
+            box = C.WorldBox(list(w.objs), list(w.objs.values()))
+            try:
+                data = nrpickler.dumps(box, protocol=op.get("proto", 4))
+                if op.get("loader") == "dill":
+                    import dill
+
+                    box2 = dill.loads(data)
+                else:
+                    box2 = pickle.loads(data)
+            except Exception:  # pylint: disable=broad-except
+                st.stats["note:round-trip-failed"] += 1
+                st.diverged = True
+                return {"roundtrip": "failed"}, None
+            w2 = World()
+            for lab, obj in zip(box2.labels, box2.objs):
+                w2.add(lab, obj, w.kind[lab])
+            w2._disc = dict(w._disc)  # pylint: disable=protected-access
+            ex.w = w2
+            ex.shared = {}
+            ex.held = {}
+        st.stats["fault:restart"] += 1
+        st.stats["restart:inproc"] += 1
+        st.warm.clear()
+        st.refresh()
+        if xsnap(st.exB) != before or xsnap(st.exA) != before:
+            # the round trip itself changed something: C10's matter
+            st.stats["note:round-trip-changed-the-structure"] += 1
+            st.diverged = True
+            return {"roundtrip": "changed"}, None
+        return {"roundtrip": "ok"}, None
+
     def execute(self, st, op):
         k = op["op"]
         s = st.stats
+        if getattr(st, "diverged", False):
+            return None, None
+        if k == "roundtrip":
+            return self._roundtrip(st, op)
         if k == "get":
             a, b = st.apply_both(op)
             if a is None and b is None:
